@@ -24,3 +24,13 @@ EXPLANATION = ('Proved: util.lower is ASCII lower-casing (what keyword/name fold
 LEVEL_TEXT = EXPLANATION
 TECHNIQUE = 'bounded evaluation of the equivalence contract compile(respell(p)) == compile(p); VC-proved character-level lemma'
 MUSTFAIL = False
+
+FUNCTIONS = FUNCTIONS + ['soupsieve.css_parser.css_unescape.replace@esc', 'soupsieve.css_parser.css_unescape.replace@stresc', 'soupsieve.css_parser.css_unescape']
+
+
+def _bt_value_lists(ctx):
+    from pyvc import bounded_text
+    return bounded_text.value_lists(ctx)
+
+
+BOUNDED = BOUNDED + [_bt_value_lists]
